@@ -875,6 +875,24 @@ class Check:
 
     HEADER = "from __future__ import annotations\nfrom exo import proc\n\n"
 
+    def load_many(self, srcs, names, tmp, modname, tag):
+        """all procedures in one module; if the front end rejects one, load them one by one"""
+        try:
+            mod = self.load_procs(self.HEADER + "".join(srcs), tmp, modname)
+            return [(k, getattr(mod, nm)) for k, nm in enumerate(names)]
+        except Exception:
+            pass
+        out = []
+        for k, (src, nm) in enumerate(zip(srcs, names)):
+            try:
+                mod = self.load_procs(self.HEADER + src, tmp, f"{modname}_{k}")
+                out.append((k, getattr(mod, nm)))
+            except Exception as e:
+                self.ctx.count(f"{tag}:frontend-rejected:{type(e).__name__}")
+        if len(out) < len(srcs) // 2:
+            raise InfraError(f"{tag}: the front end rejects most generated procedures ({len(out)}/{len(srcs)} load)")
+        return out
+
     def gen_idx_src(self, r, vars_, allow_mod=True, d=2):
         """source text of an affine index expression with / and % by positive literals"""
         if d == 0 or r.random() < 0.3:
@@ -890,40 +908,108 @@ class Check:
         if k < 0.7:
             return f"{r.choice([2, 3, 4])} * ({a})"
         if k < 0.9 or not allow_mod:
+            if vars_ and not re.search(r"[a-z]", a):
+                a = f"{a} + {r.choice(vars_)}"  # constant / constant is folded by another component
             return f"({a}) / {r.choice([2, 3, 4])}"
         return f"({a}) % {r.choice([2, 3, 4])}"
 
+    def gen_div_src(self, r, d):
+        """sums of quotients whose numerators are often negative somewhere in the iteration space"""
+        def num(d):
+            v, w = r.sample(["i", "j"], 2)
+            k = r.random()
+            if k < 0.2:
+                return f"{v} - {r.randint(1, 6)}"
+            if k < 0.35:
+                return f"{v} - {w}"
+            if k < 0.45:
+                return f"{r.randint(0, 4)} - {v}"
+            if k < 0.55:
+                return f"{r.choice([2, 3])} * {v} - {r.randint(1, 7)}"
+            if k < 0.75:
+                return f"{v} + {r.randint(0, 3)}"
+            if k < 0.85 or d == 0:
+                return f"{v} + {w}"
+            return f"({num(d - 1)}) / {r.choice([2, 3])} + {w} - {r.randint(0, 3)}"
+        terms = [f"({num(d)}) / {r.choice([2, 3, 4, 5])}" for _ in range(r.randint(1, 2))]
+        if r.random() < 0.3:
+            terms.append(r.choice(["i", "j", "2 * i"]))
+        return " + ".join(terms)
+
     def gen_std_proc(self, r, k):
-        """a loop nest (names may shadow) with a few writes to x"""
-        lines = [f"@proc", f"def s{k}(n: size, x: f32[64]):", "    for k0 in seq(0, 1):"]
+        """a loop nest (names may shadow) with a few writes to x; indices are shifted so that every
+        access is in bounds for n in 1..3 (the front end bounds-checks at @proc time)"""
         names = ["i", "j", "i", "q"]
         nacc = [0]
 
-        def body(ind, vars_, depth):
+        def body(vars_, depth):
             out = []
             for _ in range(r.randint(1, 2)):
                 if depth < 3 and r.random() < 0.6:
                     v = r.choice(names)
-                    lo = r.choice(["0", "0", "1", "2"]) if r.random() < 0.8 or not vars_ else r.choice(vars_)
+                    # a bound that mentions the loop's own name is resolved by the front end to the
+                    # *new* iteration variable (`for i in seq(i, i + 3)` becomes `for i_1 in seq(i_1, …)`):
+                    # not an index expression with a meaning, so never generated
+                    outer = [w for w in vars_ if w != v]
+                    lo = r.choice(["0", "0", "1", "2"]) if r.random() < 0.8 or not outer else r.choice(outer)
                     q = r.random()
                     if q < 0.55:
-                        hi = str(r.randint(1, 5))
+                        hi = str(r.randint(2, 5))
                     elif q < 0.75:
-                        hi = "n"
-                    elif vars_:
-                        hi = f"{r.choice(vars_)} + {r.randint(1, 3)}"
+                        hi = "n" if lo in ("0", "1") else "n + 2"
+                    elif outer:
+                        hi = f"{r.choice(outer)} + {r.randint(2, 3)}"
                     else:
                         hi = str(r.randint(2, 4))
-                    out.append(" " * ind + f"for {v} in seq({lo}, {hi}):")
-                    out += body(ind + 4, [w for w in vars_ if w != v] + [v], depth + 1)
+                    out.append(["for", v, lo, hi, body([w for w in vars_ if w != v] + [v], depth + 1)])
                 else:
                     nacc[0] += 1
-                    out.append(" " * ind + f"x[{self.gen_idx_src(r, vars_ + ['n'] if r.random() < 0.3 else vars_)}] = {nacc[0]}.0")
+                    out.append(["acc", self.gen_idx_src(r, vars_ + ["n"] if r.random() < 0.3 else vars_), 0, nacc[0]])
             return out
 
-        lines += body(8, [], 0)
+        tree = body([], 0)
         if nacc[0] == 0:
-            lines.append("        x[0] = 1.0")
+            tree.append(["acc", "0", 0, 1])
+        bad_loop = [False]
+
+        def run(nodes, rho, mins):
+            for nd in nodes:
+                if nd[0] == "acc":
+                    v = self.py_eval(nd[1], rho)
+                    mins[nd[3]] = min(mins.get(nd[3], v), v)
+                else:
+                    lo, hi = self.py_eval(nd[2], rho), self.py_eval(nd[3], rho)
+                    if hi < lo:
+                        bad_loop[0] = True  # the front end insists on lo <= hi
+                    old = rho.get(nd[1])
+                    for t in range(lo, hi):
+                        rho[nd[1]] = t
+                        run(nd[4], rho, mins)
+                    if old is None:
+                        rho.pop(nd[1], None)
+                    else:
+                        rho[nd[1]] = old
+
+        mins = {}
+        for nval in (1, 2, 3):
+            run(tree, {"n": nval}, mins)
+        if bad_loop[0]:
+            return self.gen_std_proc(r, k)
+
+        def emit(nodes, ind):
+            out = []
+            for nd in nodes:
+                if nd[0] == "acc":
+                    off = -mins.get(nd[3], 0) if mins.get(nd[3], 0) < 0 else 0
+                    idx = f"{nd[1]} + {off}" if off else nd[1]
+                    out.append(" " * ind + f"x[{idx}] = {nd[3]}.0")
+                else:
+                    out.append(" " * ind + f"for {nd[1]} in seq({nd[2]}, {nd[3]}):")
+                    out += emit(nd[4], ind + 4)
+            return out
+
+        lines = ["@proc", f"def s{k}(n: size, x: f32[400]):", "    assert n <= 3", "    for k0 in seq(0, 1):"]
+        lines += emit(tree, 8)
         return "\n".join(lines) + "\n\n"
 
     def stream_a4(self, nprocs, tmp):
@@ -933,12 +1019,22 @@ class Check:
         from exo.API_cursors import ForCursor
 
         srcs = [self.gen_std_proc(r, k) for k in range(nprocs)]
-        try:
-            mod = self.load_procs(self.HEADER + "".join(srcs), tmp, f"c13_std_{ctx.seed}")
-        except Exception as e:
-            raise InfraError(f"generated stdlib procedures do not load: {type(e).__name__}: {e}")
-        for k in range(nprocs):
-            self.std_case(getattr(mod, f"s{k}"), srcs[k], SRA, get_parents, ForCursor)
+        procs = self.load_many(srcs, [f"s{k}" for k in range(nprocs)], tmp, f"c13_std_{ctx.seed}", "a4")
+        for k, p in procs:
+            self.std_case(p, srcs[k], SRA, get_parents, ForCursor)
+
+    @staticmethod
+    def names_clash(loops, e):
+        """the theorem's hypothesis NameInj fails: two different symbols in play share a name
+        (the stdlib environment is keyed by name strings)"""
+        U = []
+        for k, lo, hi in loops:
+            if k not in U:
+                U.append(k)
+            ast_vars(lo, U)
+            ast_vars(hi, U)
+        ast_vars(e, U)
+        return len({k[0] for k in U}) < len(U)
 
     def loops_between(self, p, c, scope, get_parents, ForCursor):
         anc = list(get_parents(p, c, up_to=scope))[:-1]
@@ -956,8 +1052,11 @@ class Check:
                 return
             node = chain[i]
             key = W.key(node.iter)
-            lo = ev(W.unbuild(node.lo), rho)
-            hi = ev(W.unbuild(node.hi), rho)
+            try:
+                lo = ev(W.unbuild(node.lo), rho)
+                hi = ev(W.unbuild(node.hi), rho)
+            except KeyError:  # a bound reading a variable that no enclosing loop binds
+                return
             if lo is None or hi is None:
                 return
             for v in range(lo, min(hi, lo + 7)):
@@ -988,8 +1087,7 @@ class Check:
                 replay = {"kind": "ir", "source": src, "access": ai, "scope": str(scope._impl._node.iter) + "#" + str(scope._impl._node.iter._id),
                           "loops": lw, "expr": wire(e), "reported": res_str(res)}
                 ctx.count(f"a4:infer:{res[0]}")
-                names = [k[0] for k, _, _ in loops]
-                shadow = len(set(names)) < len(names)
+                shadow = self.names_clash(loops, e)
                 if shadow:
                     ctx.count("a4:shadowed")
                 # search: run the whole enclosing nest
@@ -1032,7 +1130,7 @@ class Check:
                 finite = all(x[1] is not None and x[2] is not None for x in rs)
                 same = all(x[3] == rs[0][3] for x in rs)
                 clash = any(self.name_clash(x[3], rs[0][3]) for x in rs)
-                shadow = any(len({k[0] for k, _, _ in x[3]}) < len(x[3]) for x in per_access)
+                shadow = any(self.names_clash(x[3], x[0]) for x in per_access)
                 done = False
                 for (e, res, chain, loops) in per_access:
                     for nval in (1, 2, 3):
@@ -1061,10 +1159,7 @@ class Check:
         for k in range(nprocs):
             l1, h1 = r.randint(0, 2), r.randint(3, 6)
             l2, h2 = r.randint(0, 2), r.randint(3, 5)
-            while True:
-                e = self.gen_idx_src(r, ["i", "j"], allow_mod=False, d=3)
-                if "/" in e:
-                    break
+            e = self.gen_div_src(r, 2)
             vals = [self.py_eval(e, {"i": i, "j": j}) for i in range(l1, h1) for j in range(l2, h2)]
             off = -min(vals)
             size = max(vals) + off + 1
@@ -1073,12 +1168,8 @@ class Check:
                    f"            x[{idx}] = 1.0\n\n")
             srcs.append(src)
             metas.append((idx, (l1, h1, l2, h2)))
-        try:
-            mod = self.load_procs(self.HEADER + "".join(srcs), tmp, f"c13_comp_{ctx.seed}")
-        except Exception as e:
-            raise InfraError(f"generated compile procedures do not load: {type(e).__name__}: {e}")
-        for k in range(nprocs):
-            self.compile_case(getattr(mod, f"c{k}"), srcs[k], *metas[k])
+        for k, p in self.load_many(srcs, [f"c{k}" for k in range(nprocs)], tmp, f"c13_comp_{ctx.seed}", "a5"):
+            self.compile_case(p, srcs[k], *metas[k])
 
     @staticmethod
     def py_eval(src, rho):
@@ -1160,12 +1251,8 @@ class Check:
             src = (f"@proc\ndef f{k}(y: f32[40]):\n    x: f32[40]\n    for i in seq(0, {N}):\n{body}    y[0] = x[{d}]\n\n")
             srcs.append(src)
             metas.append((N, c, writes, rd_in, d, size))
-        try:
-            mod = self.load_procs(self.HEADER + "".join(srcs), tmp, f"c13_fold_{ctx.seed}")
-        except Exception as e:
-            raise InfraError(f"generated fold procedures do not load: {type(e).__name__}: {e}")
-        for k in range(nprocs):
-            self.fold_case(getattr(mod, f"f{k}"), srcs[k], metas[k])
+        for k, p in self.load_many(srcs, [f"f{k}" for k in range(nprocs)], tmp, f"c13_fold_{ctx.seed}", "a6"):
+            self.fold_case(p, srcs[k], metas[k])
 
     @staticmethod
     def simulate_fold(meta, fold):
@@ -1202,6 +1289,7 @@ class Check:
     PROBES = '''
 @proc
 def s_shadow(n: size, x: f32[200]):
+    assert n <= 3
     for k0 in seq(0, 1):
         for i in seq(0, 2):
             for i in seq(0, 5):
@@ -1209,6 +1297,7 @@ def s_shadow(n: size, x: f32[200]):
 
 @proc
 def s_missing_end(n: size, x: f32[100]):
+    assert n <= 3
     for k0 in seq(0, 1):
         for j in seq(0, n):
             x[j + 4] = 1.0
@@ -1216,6 +1305,7 @@ def s_missing_end(n: size, x: f32[100]):
 
 @proc
 def s_mismatch(n: size, x: f32[100]):
+    assert n <= 3
     for i in seq(0, 3):
         for j in seq(0, 3):
             for k0 in seq(0, 1):
@@ -1241,7 +1331,7 @@ def s_mismatch(n: size, x: f32[100]):
         mod = self.load_procs(self.HEADER + src, tmp, f"c13_probe_fold_{self.ctx.seed}")
         self.fold_case(mod.f_probe, src, (10, 1, [0, 1], None, 8, 2))
         # __or__ comparing bases by printed name, reached through divide_loop-generated names
-        src2 = ("@proc\ndef s_clash(n: size, x: f32[100]):\n    for io in seq(0, 3):\n        for ii in seq(0, 4):\n"
+        src2 = ("@proc\ndef s_clash(n: size, x: f32[100]):\n    assert n <= 3\n    for io in seq(0, 3):\n        for ii in seq(0, 4):\n"
                 "            for i in seq(0, 8):\n                for k0 in seq(0, 1):\n"
                 "                    x[4 * io + ii] = 1.0\n                    x[i] = 2.0\n\n")
         mod = self.load_procs(self.HEADER + src2, tmp, f"c13_probe_clash_{self.ctx.seed}")
@@ -1362,18 +1452,28 @@ def run(ctx):
         replay_case(ctx, chk, json.loads(Path(ctx.replay).read_text()))
         return
 
+    import time
+    times = {}
+
+    def timed(name, f, *a):
+        t = time.time()
+        f(*a)
+        times[name] = round(times.get(name, 0) + time.time() - t, 1)
+
+    times["obligations"] = round(ctx.elapsed(), 1)
     with tempfile.TemporaryDirectory() as tmp:
-        chk.stream_a1(ctx.scale(1500, 12000))
-        chk.stream_a2(ctx.scale(1600, 12000))
-        chk.stream_a3(ctx.scale(250, 2000))
-        chk.flush()
-        chk.ctor_check(tmp)
-        chk.stream_a4(ctx.scale(25, 160), tmp)
-        chk.probes(tmp)
-        chk.flush()
-        chk.stream_a5(ctx.scale(12, 70), tmp)
-        chk.stream_a6(ctx.scale(25, 200), tmp)
-        chk.flush()
+        timed("a1", chk.stream_a1, ctx.scale(1500, 12000))
+        timed("a2", chk.stream_a2, ctx.scale(1600, 12000))
+        timed("a3", chk.stream_a3, ctx.scale(250, 2000))
+        timed("lean", chk.flush)
+        timed("a4", chk.ctor_check, tmp)
+        timed("a4", chk.stream_a4, ctx.scale(25, 160), tmp)
+        timed("probes", chk.probes, tmp)
+        timed("lean", chk.flush)
+        timed("a5", chk.stream_a5, ctx.scale(12, 70), tmp)
+        timed("a6", chk.stream_a6, ctx.scale(25, 200), tmp)
+        timed("lean", chk.flush)
+    ctx.extra["stage_seconds"] = times
 
     # verdicts for broken obligations / correspondence without a failing input
     found_input = any(not v["no_input"] for v in ctx.violations)
